@@ -7,6 +7,9 @@ From MQ Require Export Bytes Spec Reader ReaderRun C15Check.
 (* byte-string literal whose length is given in N (long strings: no large nat literal) *)
 Definition BN (n : N) (x : N) : list N := B (N.to_nat n) x.
 
+(* a slice of the case's stream (case files name long byte strings by position) *)
+Definition sub (s : list N) (off n : N) : list N := firstn (N.to_nat n) (skipn (N.to_nat off) s).
+
 Inductive errclass := CEOF | CTimeout | CProto | COther.
 
 Inductive bigread :=
@@ -24,13 +27,21 @@ Inductive obsret :=
    a deadline is set, slice size, answer *)
 Definition revent : Type := bool * bool * N * rans.
 
+Inductive bop := OpReadByte | OpPeek (n : N) | OpDiscard (n : N) | OpRead (n : N).
+
 Inductive c06case :=
 | StreamCase (B : N) (pause : bool)
              (stream : list N)          (* what the broker side meant to send, CONNACK first *)
              (choices : list bool)      (* per BigMessage served: true = ReadAll *)
              (events : list revent)     (* every conn.Read of the connection *)
              (returns : list obsret)    (* every ReadSlices return, in order *)
-             (acks : list N).           (* bytes the read routine wrote (after the test's own requests) *)
+             (acks : list N)            (* bytes the read routine wrote (after the test's own requests) *)
+             (dials : N)                (* Dialer invocations; the second and later ones are refused *)
+(* micro-correspondence of the bufio.Reader model: a script of calls on a real
+   bufio.Reader of size B over a scripted io.Reader, with every result *)
+| BufioCase (B : N) (ops : list bop)
+            (reads : list (N * rans))             (* slice size and answer of every Read of the source *)
+            (results : list (list N * N * N)).    (* bytes, count, error code per call *)
 
 (* ------------------------------------------------------------------ *)
 (* equality tests                                                      *)
@@ -267,6 +278,52 @@ Definition run_client (B : N) (pause : bool) (choices : list bool) (tape : list 
     ([RetErr c], st (if pause then rst_arm r1 false else r1))
   end.
 
+(* After a ReadSlices error caused by a deadline expiry the harness calls once more:
+   the connection was dropped, the client dials again and the harness refuses. *)
+Fixpoint with_followup (rets : list obsret) : list obsret :=
+  match rets with
+  | [] => []
+  | [RetErr CTimeout] => [RetErr CTimeout; RetErr COther]
+  | r :: l => r :: with_followup l
+  end.
+
+Fixpoint dials_of (rets : list obsret) : N :=
+  match rets with
+  | [RetErr CTimeout; RetErr COther] => 2
+  | _ :: l => dials_of l
+  | [] => 1
+  end.
+
+(* bufio.Reader calls *)
+Definition err_code (e : rerror) : N :=
+  match e with
+  | ETimeout => 1 | EEOF => 2 | EClosed => 3 | EHard => 4 | EBufferFull => 5
+  | EUnexpectedEOF => 6 | ENoTape => 9
+  end.
+Definition err_codeo (e : option rerror) : N := match e with Some e => err_code e | None => 0 end.
+
+Definition bstep (s : rst) (o : bop) : (list N * N * N) * rst :=
+  match o with
+  | OpReadByte =>
+    match read_byte s with
+    | (inl b, s') => (([b], 1, 0), s')
+    | (inr e, s') => (([], 0, err_code e), s')
+    end
+  | OpPeek n => let '((p, e), s') := peek s n in ((p, len p, err_codeo e), s')
+  | OpDiscard n =>
+    let '((d, e), s') := bufio_discard (S (S (tape_weight (rtape s)))) s n 0 in (([], d, err_codeo e), s')
+  | OpRead n => let '((p, e), s') := bufio_read s n in ((p, len p, err_codeo e), s')
+  end.
+
+Fixpoint bsteps (s : rst) (ops : list bop) : list (list N * N * N) * rst :=
+  match ops with
+  | [] => ([], s)
+  | o :: r => let '(x, s') := bstep s o in let '(l, s'') := bsteps s' r in (x :: l, s'')
+  end.
+
+Definition bres_eqb (a b : list N * N * N) : bool :=
+  list_eqb (fst (fst a)) (fst (fst b)) && (snd (fst a) =? snd (fst b)) && (snd a =? snd b).
+
 Definition ev_ans (e : revent) : rans := snd e.
 Definition ev_log (e : revent) : bool * N := (snd (fst (fst e)), snd (fst e)).
 
@@ -277,12 +334,21 @@ Definition log_eqb (a b : list (bool * N)) : bool :=
    (armed flag and slice size of every conn.Read; all answers consumed) *)
 Definition c06_agree (c : c06case) : bool :=
   match c with
-  | StreamCase B pause stream choices events returns acks =>
-    let '(rets, st) := run_client B pause choices (map ev_ans events) in
+  | StreamCase B pause stream choices events returns acks dials =>
+    let '(rets0, st) := run_client B pause choices (map ev_ans events) in
+    let rets := with_followup rets0 in
     list_eqb_by obsret_eqb rets returns
+    && (dials_of rets =? dials)
     && list_eqb (d_out st) acks
     && log_eqb (rev (rlog (d_r st))) (map ev_log events)
     && match rtape (d_r st) with [] => true | _ => false end
+  | BufioCase B ops reads results =>
+    let s0 := {| rbuf := []; rerr := None; rcap := B; rarmed := false;
+                 rtape := map snd reads; rlog := [] |} in
+    let '(res, s) := bsteps s0 ops in
+    list_eqb_by bres_eqb res results
+    && list_eqb (map snd (rev (rlog s))) (map fst reads)
+    && match rtape s with [] => true | _ => false end
   end.
 
 (* ------------------------------------------------------------------ *)
@@ -349,7 +415,9 @@ Fixpoint judge (rets : list obsret) (exp : list (list N * list N)) (events : lis
   match rets with
   | [] => None                                   (* a history ends with an error return *)
   | [RetErr CEOF] => match exp with [] => if ends_eof events then Some true else None | _ => None end
-  | [RetErr CTimeout] => if ends_no_progress events then Some false else None
+  | [RetErr CTimeout; RetErr COther] =>
+    (* permitted only at an expiry without progress; the connection must be dropped *)
+    if ends_no_progress events then Some false else None
   | RetMsg m t :: r =>
     match exp with
     | (t', m') :: exp' => if list_eqb t t' && list_eqb m m' then judge r exp' events else None
@@ -372,16 +440,28 @@ Fixpoint judge (rets : list obsret) (exp : list (list N * list N)) (events : lis
   | _ => None
   end.
 
+Fixpoint bufio_walk (ops : list bop) (res : list (list N * N * N)) (d : list N) : bool :=
+  match ops, res with
+  | [], [] => true
+  | o :: ops', (bs, n, _) :: res' =>
+    match o with
+    | OpPeek _ => is_prefixb bs d && bufio_walk ops' res' d
+    | OpDiscard _ => (n <=? len d) && bufio_walk ops' res' (skipn (N.to_nat n) d)
+    | _ => is_prefixb bs d && bufio_walk ops' res' (skipn (length bs) d)
+    end
+  | _, _ => false
+  end.
+
 Definition c06_ok (c : c06case) : bool :=
   match c with
-  | StreamCase B pause stream choices events returns acks =>
+  | StreamCase B pause stream choices events returns acks dials =>
     let served := data (map ev_ans events) in
     let '(ps, leftover) := parse_stream (S (length stream)) stream in
     match leftover, ps with
     | [], PConnack _ 0 :: ps' =>
       let '(deliveries, ackps) := expected ps' [] in
       let '(got_acks, ack_left) := parse_stream (S (length acks)) acks in
-      is_prefixb served stream &&
+      is_prefixb served stream && (dials =? dials_of returns) &&
       match judge returns deliveries events with
       | Some true =>
         (* ran to the end: everything served, every acknowledgement written *)
@@ -394,6 +474,10 @@ Definition c06_ok (c : c06case) : bool :=
       end
     | _, _ => false          (* the generator must supply a well-formed stream *)
     end
+  | BufioCase B ops reads results =>
+    (* library model only; as a sanity property: what the calls hand out, peek at and
+       skip is the delivered byte sequence, in order *)
+    bufio_walk ops results (data (map snd reads))
   end.
 
 Definition c06_run (l : list c06case) : list N * list N * list (N * N) :=
